@@ -55,13 +55,20 @@ theorem combineLoop_needs_true (p : Bool) (bs : List Blk) (cur : Option Nat) (ac
   | nil => simp [combineLoop]
   | cons b bs ih =>
     unfold combineLoop
-    split
-    · exact ih _ _
-    · split
-      · split
-        · exact ih _ _
-        · exact ih _ _
-      · exact ih _ _
+    by_cases h0 : b.2 - b.1 = 0
+    · simp only [h0, if_true]
+      exact ih _ _
+    · simp only [h0, if_false]
+      cases cur with
+      | none => exact ih _ _
+      | some ce =>
+        cases acc with
+        | nil => exact ih _ _
+        | cons last accTail =>
+          dsimp only
+          by_cases hcomb : (if p = true then ce = b.1 else ce ≥ b.1)
+          · rw [if_pos hcomb]; exact ih _ _
+          · rw [if_neg hcomb]; exact ih _ _
 
 /-- "nothing needed combining" really means the list is returned unchanged. -/
 theorem combineLoop_needs_false (p : Bool) (bs : List Blk) (cur : Option Nat) (acc : List Blk) (nd : Bool)
@@ -71,17 +78,21 @@ theorem combineLoop_needs_false (p : Bool) (bs : List Blk) (cur : Option Nat) (a
   | nil => simp [combineLoop]
   | cons b bs ih =>
     unfold combineLoop at h ⊢
-    split at h
-    · rw [combineLoop_needs_true] at h; cases h
-    · split at h
-      · split at h
-        · rw [combineLoop_needs_true] at h; cases h
-        · rename_i hc
-          simp only [hc, if_false]
-          have := ih _ _ _ h
-          simpa using this
-      · have := ih _ _ _ h
-        simpa using this
+    by_cases h0 : b.2 - b.1 = 0
+    · simp only [h0, if_true] at h
+      rw [combineLoop_needs_true] at h; cases h
+    · simp only [h0, if_false] at h ⊢
+      cases cur with
+      | none => simpa using ih _ _ _ h
+      | some ce =>
+        cases acc with
+        | nil => simpa using ih _ _ _ h
+        | cons last accTail =>
+          dsimp only at h ⊢
+          by_cases hcomb : (if p = true then ce = b.1 else ce ≥ b.1)
+          · rw [if_pos hcomb, combineLoop_needs_true] at h; cases h
+          · rw [if_neg hcomb] at h ⊢
+            simpa using ih _ _ _ h
 
 /-! ### properties of `comb` -/
 
@@ -117,11 +128,10 @@ theorem comb_normal (c : Blk) (bs : List Blk) (hc : c.1 < c.2) : normalBlocks (c
 theorem blkAsc_merge (c b : Blk) (hc : c.1 ≤ c.2) (hb : b.1 < b.2) (h : c.2 = b.1) :
     blkAsc (c.1, max c.2 b.2) = blkAsc c ++ blkAsc b := by
   simp only [blkAsc]
-  have e1 : b.1 = c.1 + (c.2 - c.1) := by omega
-  have e2 : max c.2 b.2 - c.1 = (c.2 - c.1) + (b.2 - b.1) := by omega
-  rw [e2]
-  conv => rhs; rw [e1]
-  rw [List.range'_append_1]
+  have e1 : List.range' b.1 (b.2 - b.1) = List.range' (c.1 + (c.2 - c.1)) (b.2 - b.1) := by
+    congr 1; omega
+  rw [e1, List.range'_append_1]
+  congr 1; omega
 
 theorem comb_bases (c : Blk) (bs : List Blk) (hc : c.1 ≤ c.2) (hv : ∀ b ∈ bs, b.1 ≤ b.2) :
     basesPlus (comb c bs) = blkAsc c ++ basesPlus bs := by
@@ -151,13 +161,13 @@ theorem comb_starts (c : Blk) (bs : List Blk) :
     split
     · have := ih c
       simp only [List.map_cons]
-      exact this.trans ((List.sublist_cons_self _ _).cons₂ _)
+      exact this.trans ((List.sublist_cons_self _ _).cons_cons _)
     · split
       · have := ih (c.1, max c.2 b.2)
         simp only [List.map_cons]
-        exact this.trans ((List.sublist_cons_self _ _).cons₂ _)
+        exact this.trans ((List.sublist_cons_self _ _).cons_cons _)
       · simp only [List.map_cons]
-        exact (ih b).cons₂ _
+        exact (ih b).cons_cons _
 
 /-! ### the same for `combStart` -/
 
